@@ -15,6 +15,7 @@ pub mod judge;
 pub mod machine;
 pub mod proj;
 pub mod reader;
+pub mod tracegen;
 pub mod runner;
 pub mod runner2;
 pub mod runner3;
